@@ -11,7 +11,7 @@ from fractions import Fraction
 
 import numpy as np
 
-from .. import core
+from .. import core, translate
 from ..scorers import HashChangeScore, find_scale, hscore
 
 
@@ -216,6 +216,78 @@ def oracle_builtin(case, r):
     return None
 
 
+# ------------------------------------------------------------------------------------ route T2: `where`
+
+L1_LOOPS = {"Skc.L1.Loops": ["loop_where"]}
+
+
+def gen_where(rng, nmax):
+    n = rng.choice([0, 1, 2, 3]) if rng.random() < 0.15 else rng.randint(0, max(1, 3 * nmax))
+    kind = rng.choice(["iid", "iid", "runs", "ends", "const"])
+    if kind == "iid":
+        q = rng.choice([0.1, 0.5, 0.9])
+        bits = [int(rng.random() < q) for _ in range(n)]
+    elif kind == "runs":
+        bits, v = [], rng.randint(0, 1)
+        while len(bits) < n:
+            bits += [v] * rng.randint(1, 4)
+            v = 1 - v
+        bits = bits[:n]
+    elif kind == "ends":  # runs that touch the first / the last position, single positions at the ends
+        bits = [0] * n
+        for i in range(min(n, rng.randint(0, 3))):
+            bits[i] = 1
+        for i in range(min(n, rng.randint(0, 3))):
+            bits[n - 1 - i] = 1
+        if n > 4 and rng.random() < 0.5:
+            bits[rng.randint(1, n - 2)] = 1
+    else:
+        bits = [rng.randint(0, 1)] * n
+    return {"bits": bits, "container": rng.choice(["bool", "bool", "list", "cmp"])}
+
+
+def impl_where(case):
+    from skchange.utils.numba.general import where
+
+    bits = case["bits"]
+    try:
+        if case["container"] == "list":
+            ind = np.array([bool(b) for b in bits], dtype=bool)
+        elif case["container"] == "cmp":  # the way the detector calls it: a comparison of scores with a threshold
+            ind = np.array([2.0 if b else 0.5 for b in bits], dtype=float) > 1.0
+        else:
+            ind = np.array(bits, dtype=bool)
+        keep = ind.copy()
+        out = where(ind)
+        res = [(int(a), int(b)) for a, b in out]
+        return {"outcome": "ok", "runs": res, "mutated": not np.array_equal(keep, ind)}
+    except Exception as ex:
+        return {"outcome": "raises:" + type(ex).__name__, "msg": str(ex)[:200]}
+
+
+def where_line(case):
+    return "genwhere " + ("".join(str(b) for b in case["bits"]) or "-")
+
+
+def canon_where(case, r):
+    return "[" + ", ".join(f"({a}, {b})" for a, b in r["runs"]) + "]" if r["outcome"] == "ok" else "raises"
+
+
+def oracle_where(case, r):
+    """`where` returns exactly the maximal runs of true values, as half-open intervals in scan order"""
+    bits = case["bits"]
+    n = len(bits)
+    want = [(s, e) for s in range(n) for e in range(s + 1, n + 1)
+            if all(bits[s:e]) and (s == 0 or not bits[s - 1]) and (e == n or not bits[e])]
+    if r["outcome"] != "ok":
+        return f"where raises {r['outcome']} on {bits}"
+    if r["runs"] != want:
+        return f"where({bits}) = {r['runs']}, the maximal runs of true values are {want}"
+    if r["mutated"]:
+        return "where modified its argument"
+    return None
+
+
 # ------------------------------------------------------------------------------------ the check
 
 
@@ -223,7 +295,31 @@ def run(chk: core.Check):
     tier = chk.tier
     N = {"quick": 3000, "thorough": 60000}[tier]
     nmax = {"quick": 16, "thorough": 40}[tier]
-    chk.lean()
+    status = {}
+
+    def pre():
+        st, _ = translate.run()
+        status.update(st)
+    skip = {}
+    try:
+        pre()
+    except Exception:
+        pass
+    skip = {m: "translator (route T2): " + ", ".join(f"{k}: {status.get(k, {}).get('reason')}" for k in ks
+                                                     if status.get(k, {}).get("state") != "translated")
+            for m, ks in L1_LOOPS.items() if any(status.get(k, {}).get("state") != "translated" for k in ks)}
+    chk.lean(extra_modules=list(L1_LOOPS), skip_modules=skip, pre_build=pre)
+    chk.notes["translator"] = {k: status.get(k, {}).get("state") for ks in L1_LOOPS.values() for k in ks}
+    chk.rules.append(
+        "gen-where: boolean arrays of length 0..%d (iid at three densities, alternating runs, runs touching either end, constant), "
+        "passed as bool arrays or as a comparison result; `skchange.utils.numba.general.where` against the maximal-runs definition "
+        "and, line by line, against the Lean definition regenerated from its source by harness/translate_loops.py (driver op "
+        "`genwhere`), which Skc/L1/Loops.lean proves equal to the model `whereRuns` for every input. " % (3 * nmax))
+    wrng = core.rng_for(chk.seed, "C08/where")
+    wcases = core.Gen(gen_where, wrng, nmax, N // 2)
+    translated = all(status.get(k, {}).get("state") == "translated" for k in L1_LOOPS["Skc.L1.Loops"])
+    chk.run_stream("gen-where", wcases, impl_where, line=where_line if translated else None, canon=canon_where if translated else None,
+                   oracle=oracle_where, site="where", nontrivial=lambda c, r: r.get("outcome") == "ok" and len(r["runs"]) > 0)
     chk.rules.append(
         "mw-hash: MovingWindow with hash change scores (integer landscapes modulo R, negative values included), bandwidth 1..4, "
         "n in 2b..%d, every admissible min_detection_interval, exact thresholds 0..R via the scale or tuned thresholds, scores "
@@ -257,7 +353,8 @@ def run(chk: core.Check):
     chk.run_stream("builtin", core.Gen(gen_builtin, rng, nmax + 8, N // 3), impl_builtin, oracle=oracle_builtin,
                    site="MovingWindow/builtin", nontrivial=lambda c, r: r.get("outcome") == "ok" and len(r["cps"]) > 0,
                    describe=lambda c: {k: v for k, v in c.items() if k != "X"} | {"X[:4]": c["X"][:4]})
-    return chk.finish()
+    return chk.finish(trusted_extra=["the loop translator harness/translate_loops.py (reading of Python's for / if / append / None over lists and "
+                                     "optional ints, with the type annotations it lists), validated line by line in stream gen-where"])
 
 
 def replay(path):
